@@ -4,6 +4,7 @@ import (
 	"bytes"
 	"fmt"
 	"strconv"
+	"strings"
 
 	"verifharness/internal/rng"
 )
@@ -77,6 +78,8 @@ func (g *gstate) seqField(kind int) (string, int) {
 	case 3:
 		g.p.seq += g.r.Range(2, 5)
 		return "34=" + strconv.Itoa(g.p.seq), g.p.seq
+	case 4:
+		return "34=", -1
 	}
 	g.p.seq++
 	return "34=" + strconv.Itoa(g.p.seq), g.p.seq
@@ -107,6 +110,14 @@ func (g *gstate) logon(kind string) Op {
 	case "bad-both":
 		enc = "9"
 		hb = sc.Hi + 1
+		label = "logon-bad-enc"
+	case "refused-bad-hb":
+		pw = sc.RefusedPw
+		hb = sc.Hi + g.r.Range(1, 9)
+		label = "logon-bad-hb"
+	case "refused-bad-enc":
+		pw = sc.RefusedPw
+		enc = "5"
 		label = "logon-bad-enc"
 	case "edge-lo":
 		hb = sc.Lo
@@ -147,18 +158,20 @@ func (g *gstate) logon(kind string) Op {
 
 // admin builds an administrative message of type mt with optional damage.
 func (g *gstate) admin(mt string, body string, base string) Op {
-	dk := g.r.Intn(14)
+	dk := g.r.Intn(15)
 	skind := 0
 	switch dk {
 	case 0:
 		skind = 1
 	case 1:
 		skind = 2
+	case 4:
+		skind = 4
 	}
 	sf, seq := g.seqField(skind)
 	m := g.p.msg(mt, sf, body)
 	op := Op{Kind: "IN", Data: m, Label: base, Seq: seq}
-	if skind == 2 {
+	if skind == 2 || skind == 4 {
 		op.Label = base + "-damaged"
 	}
 	switch dk {
@@ -228,7 +241,7 @@ func genScenario(r *rng.R) (*Scenario, []string) {
 		if r.Bool() {
 			return Op{Kind: "REGIN", Mt: mt, ID: id, Flag: acc}
 		}
-		return Op{Kind: "REGOUT", Mt: mt, ID: id, Flag: acc}
+		return Op{Kind: "REGOUT", Mt: mt, ID: id, Flag: acc, Amend: r.Chance(1, 4)}
 	}
 	if r.Chance(1, 3) {
 		for i := r.Range(1, 3); i > 0; i-- {
@@ -254,9 +267,9 @@ func genScenario(r *rng.R) (*Scenario, []string) {
 			sc.Ops = append(sc.Ops, g.logon(kinds[r.Intn(len(kinds))]))
 			loggedGuess = true
 		case c < 24:
-			kinds := []string{"bad-enc", "bad-hb-lo", "bad-hb-hi", "refused", "bad-both", "damaged-cs", "damaged-len", "nonnumeric-hb"}
+			kinds := []string{"bad-enc", "bad-hb-lo", "bad-hb-hi", "refused", "bad-both", "damaged-cs", "damaged-len", "nonnumeric-hb", "refused-bad-hb", "refused-bad-enc"}
 			k := kinds[r.Intn(len(kinds))]
-			if k == "refused" && sc.RefusedPw == "" {
+			if strings.HasPrefix(k, "refused") && sc.RefusedPw == "" {
 				k = "bad-enc"
 			}
 			sc.Ops = append(sc.Ops, g.logon(k))
